@@ -58,6 +58,8 @@ class Prop:
         hr = hres["r"]
         if hr == "HARNESS_ERROR":
             return "harness error: %s" % hres.get("msg")
+        if hr == "HANG":
+            return "implementation did not terminate (or exhausted memory) on this input"
         if hr == "PANIC":
             hv = [-1]
         else:
@@ -139,6 +141,10 @@ def run_stream(prop, cases, tag, profile="debug"):
             d = prop.compare(c, h, mres[i])
             if d:
                 out["mismatches"].append((i, d))
+        if h.get("r") in ("HANG", "HARNESS_ERROR"):
+            if h.get("r") == "HANG":
+                out["oracle_hits"].append((i, "the implementation did not terminate within the per-case limit (or exhausted memory) on this input"))
+            continue
         o = prop.oracle(c, h)
         if o:
             out["oracle_hits"].append((i, o))
@@ -286,6 +292,8 @@ def check_property(prop, tier, seed, replay=None):
         found = False
         # (b) inputs on which model and implementation disagreed, checked against the direct oracle
         for c, h, d in mismatches:
+            if h.get("r") in ("HANG", "HARNESS_ERROR"):
+                continue
             o = prop.oracle(c, h)
             if o and report_hit(c, h, o, "correspondence disagreement"):
                 found = True
@@ -297,6 +305,8 @@ def check_property(prop, tier, seed, replay=None):
             try:
                 hres = C.run_harness([strip_meta(c) for c in scases]) if scases else []
                 for c, h in zip(scases, hres):
+                    if h.get("r") in ("HANG", "HARNESS_ERROR"):
+                        continue
                     o = prop.oracle(c, h)
                     if o and report_hit(c, h, o, "property search"):
                         found = True
